@@ -3,9 +3,9 @@ package harness
 import (
 	"time"
 
+	"errors"
 	tally "github.com/uber-go/tally/v4"
 	"github.com/uber-go/tally/v4/instrument"
-	"errors"
 )
 
 // SnapCopy is a deep copy of a test-scope snapshot.
